@@ -72,6 +72,7 @@ pub struct GenCfg {
     pub min_threshold: u32,
     pub sources: Vec<u8>, // 0 local, 1 arbitrary, 2 oprf
     pub confusable: bool,
+    pub relatives: bool,
     pub meas_lens: Vec<usize>,
     pub aux_kinds: Vec<i64>, // -1 none, otherwise length
     pub same_epoch_threshold: bool,
@@ -94,6 +95,7 @@ impl GenCfg {
             min_threshold: 1,
             sources: vec![0, 0, 0, 1, 1, 2],
             confusable: false,
+            relatives: false,
             meas_lens: vec![0, 1, 2, 5, 11, 11, 20, 20, 32, 32, 100, 158, 162, 166, 170, 400, 1500, 4096],
             aux_kinds: vec![-1, -1, 0, 1, 4, 4, 20, 100, 150, 166, 300, 1000, 5000],
             same_epoch_threshold: false,
@@ -210,7 +212,6 @@ impl WorldA {
             cands.push((base.clone(), Vec::new(), t ^ 1));
             cands.push((base.clone(), Vec::new(), t ^ (1 << k)));
             cands.push((base.clone(), Vec::new(), t + 256));
-            cands.push((base.clone(), Vec::new(), t.swap_bytes().max(1)));
             let mut b2 = base.clone();
             b2.extend_from_slice(&t.to_le_bytes());
             cands.push((b2.clone(), Vec::new(), t));
@@ -224,6 +225,9 @@ impl WorldA {
                 if c.2 >= 1 && !triples.contains(&c) {
                     triples.push(c);
                 }
+            }
+            if triples.is_empty() {
+                triples.push((base.clone(), Vec::new(), t));
             }
         } else {
             for _ in 0..ngroups {
@@ -240,18 +244,48 @@ impl WorldA {
                 }
             }
         }
+        if gen.relatives && !triples.is_empty() {
+            // relatives of existing groups: same measurement under another epoch / threshold
+            let n = 1 + ctx.ch.index(2);
+            for _ in 0..n {
+                let (m, e, t) = ctx.ch.pick(&triples).clone();
+                let rel = match ctx.ch.draw(4) {
+                    0 => (m, epoch_bytes(ctx, gen.utf8_epochs), t),
+                    1 => (m, e, t + 1),
+                    2 => (m, e, (t - 1).max(gen.min_threshold)),
+                    _ => (m, epoch_bytes(ctx, gen.utf8_epochs), (*ctx.ch.pick(&gen.thresholds)).max(gen.min_threshold)),
+                };
+                if !triples.contains(&rel) {
+                    triples.push(rel);
+                }
+            }
+        }
         let mut total = 0usize;
-        for (gi, (m, e, t)) in triples.into_iter().enumerate() {
+        let mut finals: Vec<(Vec<u8>, Vec<u8>, u32)> = Vec::new();
+        for (m, e, t) in triples.into_iter() {
+            let gi = self.groups.len();
             let src = match *ctx.ch.pick(&gen.sources) {
                 0 => RandSrc::Local,
                 1 => {
                     let b = ctx.ch.bytes(32);
                     let mut a = [0u8; 32];
                     a.copy_from_slice(&b);
+                    // distinct groups never share an "arbitrary" randomness string
+                    a[0] = gi as u8;
+                    a[1] = 0xA5;
                     RandSrc::Arbitrary(a)
                 }
                 _ => RandSrc::Oprf { md: ctx.ch.draw(4) as u8 },
             };
+            let e = match &src {
+                RandSrc::Oprf { md } => vec![*md],
+                _ => e,
+            };
+            let fin = (m.clone(), e.clone(), t);
+            if finals.contains(&fin) {
+                continue;
+            }
+            finals.push(fin);
             let off = *ctx.ch.pick(&gen.count_offsets);
             let mut n = if ctx.ch.chance(1, 8) { 2 * t as i64 } else { t as i64 + off };
             if ctx.ch.chance(1, 12) {
@@ -266,10 +300,7 @@ impl WorldA {
                 n = room;
             }
             total += n;
-            let epoch = match &src {
-                RandSrc::Oprf { md } => vec![*md],
-                _ => e,
-            };
+            let epoch = e;
             let mut g = Group { id: gi, measurement: m, epoch, threshold: t, src, clients: Vec::new() };
             for _ in 0..n {
                 let idx = self.clients.len();
